@@ -66,13 +66,16 @@ func FindNaluTypes(sample []byte) []NaluType {
 		return nil
 	}
 	naluList := make([]NaluType, 0, 2)
-	var pos uint32 = 0
-	for pos < uint32(length-4) {
+	pos := 0
+	for pos < length-4 {
 		naluLength := binary.BigEndian.Uint32(sample[pos : pos+4])
 		pos += 4
 		naluType := GetNaluType(sample[pos])
 		naluList = append(naluList, naluType)
-		pos += naluLength
+		if int64(naluLength) > int64(length-pos) {
+			break // length field points beyond the end of the sample
+		}
+		pos += int(naluLength)
 	}
 	return naluList
 }
@@ -84,13 +87,16 @@ func FindNaluTypesUpToFirstVideoNALU(sample []byte) []NaluType {
 		return nil
 	}
 	naluList := make([]NaluType, 0)
-	var pos uint32 = 0
-	for pos < uint32(length-4) {
+	pos := 0
+	for pos < length-4 {
 		naluLength := binary.BigEndian.Uint32(sample[pos : pos+4])
 		pos += 4
 		naluType := GetNaluType(sample[pos])
 		naluList = append(naluList, naluType)
-		pos += naluLength
+		if int64(naluLength) > int64(length-pos) {
+			break // length field points beyond the end of the sample
+		}
+		pos += int(naluLength)
 		if IsVideoNaluType(naluType) {
 			break // first video nalu
 		}
@@ -105,16 +111,19 @@ func IsIDRSample(sample []byte) bool {
 
 // ContainsNaluType - is specific NaluType present in sample
 func ContainsNaluType(sample []byte, specificNalType NaluType) bool {
-	var pos uint32 = 0
+	pos := 0
 	length := len(sample)
-	for pos < uint32(length-4) {
+	for pos < length-4 {
 		naluLength := binary.BigEndian.Uint32(sample[pos : pos+4])
 		pos += 4
 		naluType := GetNaluType(sample[pos])
 		if naluType == specificNalType {
 			return true
 		}
-		pos += naluLength
+		if int64(naluLength) > int64(length-pos) {
+			break // length field points beyond the end of the sample
+		}
+		pos += int(naluLength)
 	}
 	return false
 }
@@ -140,22 +149,26 @@ func HasParameterSets(b []byte) bool {
 
 // GetParameterSets - get (multiple) SPS and PPS from a sample
 func GetParameterSets(sample []byte) (sps [][]byte, pps [][]byte) {
-	sampleLength := uint32(len(sample))
-	var pos uint32 = 0
+	length := len(sample)
+	pos := 0
 naluLoop:
-	for pos < sampleLength {
+	for pos < length-4 { // room for a length field and a NALU header
 		naluLength := binary.BigEndian.Uint32(sample[pos : pos+4])
 		pos += 4
+		if int64(naluLength) > int64(length-pos) {
+			break // length field points beyond the end of the sample
+		}
+		end := pos + int(naluLength)
 		naluHdr := sample[pos]
 		switch naluType := GetNaluType(naluHdr); {
 		case naluType == NALU_SPS:
-			sps = append(sps, sample[pos:pos+naluLength])
+			sps = append(sps, sample[pos:end])
 		case naluType == NALU_PPS:
-			pps = append(pps, sample[pos:pos+naluLength])
+			pps = append(pps, sample[pos:end])
 		case IsVideoNaluType(naluType):
 			break naluLoop //SPS and PPS must come before video
 		}
-		pos += naluLength
+		pos = end
 	}
 	return sps, pps
 }
